@@ -18,8 +18,8 @@ RULE += '; also: lexer-level mutations (glued tokens, re-layout, comments, numbe
 ASSUMPTIONS = ['"reasonably sized" = at most 400 tokens and nesting depth <= 40',
                'terminates = stays under a logical budget of 2e5 + 5e3*len(tokens) Python calls inside the library']
 BUDGET = {'quick': (16, 240), 'thorough': (16, 1800)}
-SIZES = {'quick': dict(n_templates=4000, n_mut=60000, n_soup=8000, n_gram=20000),
-         'thorough': dict(n_templates=12000, n_mut=400000, n_soup=60000, n_gram=150000)}
+SIZES = {'quick': dict(n_templates=4000, n_mut=60000, n_soup=8000, n_gram=20000, n_lexeme=12000, lexeme_extra=True),
+         'thorough': dict(n_templates=12000, n_mut=400000, n_soup=60000, n_gram=150000, n_lexeme=80000, lexeme_extra=True)}
 
 
 def floors(tier):
